@@ -28,3 +28,39 @@ void h_readint(void) {
   readint(st, at);
   REACH("normal return of readint");
 }
+
+/* read64: never reads outside [start,end) for every buffer length/offset; consumes 1..9 bytes; a complete encoding is present */
+static uint64_t read64_c(UnmarshalState *st, const uint8_t **atdata)
+__CPROVER_requires(__CPROVER_is_fresh(st, sizeof(*st)))
+__CPROVER_requires(__CPROVER_is_fresh(atdata, sizeof(*atdata)))
+__CPROVER_requires(g_len <= 0x7fffffff && g_off <= g_len)
+__CPROVER_requires(__CPROVER_is_fresh(st->start, g_len))
+__CPROVER_requires(__CPROVER_pointer_equals(st->end, st->start + g_len))
+__CPROVER_requires(__CPROVER_pointer_equals(*atdata, st->start + g_off))
+__CPROVER_assigns(*atdata)
+__CPROVER_ensures(g_off < g_len)
+__CPROVER_ensures(B(0) <= 0xF0 ==> (*atdata == st->start + g_off + 1 && __CPROVER_return_value == B(0)))
+__CPROVER_ensures(B(0) > 0xF0 ==> (B(0) <= 0xF8 && g_off + (B(0) - 0xF0) < g_len && *atdata == st->start + g_off + (B(0) - 0xF0) + 1))
+;
+void h_read64(void) {
+  UnmarshalState *st; const uint8_t **at;
+  read64(st, at);
+  REACH("normal return of read64");
+}
+/* readnat: as readint, and the result is never negative */
+static int32_t readnat_c(UnmarshalState *st, const uint8_t **atdata)
+__CPROVER_requires(__CPROVER_is_fresh(st, sizeof(*st)))
+__CPROVER_requires(__CPROVER_is_fresh(atdata, sizeof(*atdata)))
+__CPROVER_requires(g_len <= 0x7fffffff && g_off <= g_len)
+__CPROVER_requires(__CPROVER_is_fresh(st->start, g_len))
+__CPROVER_requires(__CPROVER_pointer_equals(st->end, st->start + g_len))
+__CPROVER_requires(__CPROVER_pointer_equals(*atdata, st->start + g_off))
+__CPROVER_assigns(*atdata)
+__CPROVER_ensures(__CPROVER_return_value >= 0)
+__CPROVER_ensures(*atdata > st->start + g_off && *atdata <= st->start + g_len)
+;
+void h_readnat(void) {
+  UnmarshalState *st; const uint8_t **at;
+  readnat(st, at);
+  REACH("normal return of readnat");
+}
